@@ -9,10 +9,15 @@
   (`checkPub`: the public key blob stored outside the private section must be the marshalled public key
   of the parsed key, every key type) and 4d7287a (ECDSA scalar must satisfy 0 < D < N).
 
-  Oracles (stdlib / C19): the decrypted private block (bcrypt_pbkdf + AES-CTR/CBC), rsa.Validate,
-  ed25519.NewKeyFromSeed, elliptic ScalarBaseMult and point validation.
+  bcrypt_pbkdf (ssh/internal/bcrypt_pbkdf) is NOT an oracle: the key/IV of an encrypted file is derived by
+  the Lean model `XC.C19.key` (SHA-512 + Blowfish, validated against the OpenBSD vectors) from the
+  passphrase, salt and rounds of the op; the harness states which 48 bytes IT used for the AES oracle and
+  a difference is reported as `kdf-mismatch`.
+  Oracles (stdlib): AES-256-CTR/CBC under that key, rsa.Validate, ed25519.NewKeyFromSeed, elliptic
+  ScalarBaseMult and point validation.
 -/
 import XC.Model.C41
+import XC.Model.C19
 namespace XC.C39
 open XC XC.C38 XC.C41
 
@@ -32,8 +37,9 @@ def PrivKey.pub : PrivKey → PubKey
 
 structure Oracles where
   pt : PtOracle
-  /-- decrypt(privKeyBlock): `none` = not supplied, `some none` = bcrypt_pbkdf/AES returned an error -/
-  dec : Option (Option Bytes)
+  /-- AES oracle: the 48 bytes key ‖ iv the harness decrypted with and the resulting plaintext
+      (`none` = not supplied) -/
+  dec : Option (Bytes × Bytes)
   /-- rsa.PrivateKey.Validate() == nil -/
   rsaValid : Option Bool
   /-- ed25519.NewKeyFromSeed(Priv[:32])[32:] -/
@@ -46,6 +52,7 @@ inductive Res where
   | needPass (outerPub : Bytes)      -- PassphraseMissingError with PublicKey = ParsePublicKey(w.PubKey)
   | badPass                          -- x509.IncorrectPasswordError
   | oracleMiss
+  | kdfMismatch                      -- the AES oracle was evaluated under a key that is not bcrypt_pbkdf(passphrase, salt, rounds)
   | ok (k : PrivKey) (comment : Bytes)
 deriving DecidableEq, Repr
 
@@ -216,7 +223,7 @@ def parsePlain (o : Oracles) (key : Bytes) : Res :=
     else parsePrivBlock o w.pubKey false w.privBlock
 
 /-- `parseOpenSSHPrivateKey(key, passphraseProtectedOpenSSHKey(passphrase))` -/
-def parseWithPass (o : Oracles) (key : Bytes) : Res :=
+def parseWithPass (o : Oracles) (passphrase : Bytes) (key : Bytes) : Res :=
   match parseContainer key with
   | none => .err
   | some w =>
@@ -228,7 +235,7 @@ def parseWithPass (o : Oracles) (key : Bytes) : Res :=
       if w.kdfOpts.isEmpty then .err else
       match parseString w.kdfOpts with
       | none => .err
-      | some (_salt, r1) =>
+      | some (salt, r1) =>
         match parseU32 r1 with
         | none => .err
         | some (rounds, r2) =>
@@ -237,13 +244,17 @@ def parseWithPass (o : Oracles) (key : Bytes) : Res :=
           else
             let cbc := w.cipher = nm "aes256-cbc"
             let ctr := w.cipher = nm "aes256-ctr"
-            match o.dec with
-            | none => .oracleMiss
-            | some none => .err                   -- bcrypt_pbkdf.Key error (rounds 0, empty salt, empty passphrase)
-            | some (some plain) =>
-              if ctr then parsePrivBlock o w.pubKey true plain
-              else if cbc then (if w.privBlock.length % 16 ≠ 0 then .err else parsePrivBlock o w.pubKey true plain)
-              else .err
+            -- k, err := bcrypt_pbkdf.Key(passphrase, salt, rounds, 32+16)
+            match XC.C19.key passphrase salt rounds 48 with
+            | .err => .err                        -- rounds 0, empty salt, empty passphrase
+            | .panic => .err                      -- unreachable for keyLen = 48
+            | .ok k =>
+              if !ctr ∧ !cbc then .err
+              else if cbc ∧ w.privBlock.length % 16 ≠ 0 then .err
+              else match o.dec with
+                | none => .oracleMiss
+                | some (used, plain) =>
+                  if used ≠ k then .kdfMismatch else parsePrivBlock o w.pubKey true plain
 
 /-! ## marshalOpenSSHPrivateKey -/
 
